@@ -304,7 +304,8 @@ where
     /// Read the 'card specific data' block.
     fn read_csd(&mut self) -> Result<Csd, Error> {
         match self.card_type {
-            Some(CardType::SD1) => {
+            // All standard-capacity cards (including v2.x ones) use CSD Version 1.0
+            Some(CardType::SD1 | CardType::SD2) => {
                 let mut csd = CsdV1::new();
                 if self.card_command(CMD9, 0)? != 0 {
                     return Err(Error::RegisterReadError);
@@ -312,7 +313,8 @@ where
                 self.read_data(&mut csd.data)?;
                 Ok(Csd::V1(csd))
             }
-            Some(CardType::SD2 | CardType::SDHC) => {
+            // Only high/extended-capacity cards use CSD Version 2.0
+            Some(CardType::SDHC) => {
                 let mut csd = CsdV2::new();
                 if self.card_command(CMD9, 0)? != 0 {
                     return Err(Error::RegisterReadError);
